@@ -38,6 +38,8 @@ THEOREMS = [
     "HedVerif.C18.remodel_idempotent",
     "HedVerif.C18.remodelCore_idempotent",
     "HedVerif.C18.no_overwrite",
+    "HedVerif.C18.create_never_overwrites",
+    "HedVerif.C18.create_existing_returns_false",
 ]
 BUDGET = {"quick": 600, "thorough": 3000}
 STAMP = "2026-01-02 03:04:05.678901"
@@ -980,6 +982,174 @@ def opcrash_execute(ctx, env, st, ans, only_k=None):
     ctx.check_time()
 
 
+# ------------------------------------------- sessions on the level of whole backups (names, empty records)
+
+CLI_SELECT = [[], [], ["-t", "nosuch"], ["-e", ".xyz"], ["-f", "nosuch"], ["-t", "go"], ["-e", ".tsv", "-f", "events", "participants"]]
+
+
+def gen_bhist(rng, i):
+    tree = gen_tree(rng, allow_odd=False, in_derivatives=False)
+    have = {tuple(t[0]) for t in tree}
+    for nm in ["sub-01_task-go_events.tsv", "task_go_events.tsv"]:
+        if (nm,) not in have and rng.random() < 0.8:
+            tree.append([[nm], gen_tsv(rng, False, floats=False).decode("latin-1")])
+    rels = [t[0] for t in tree]
+    names = ["default_back", "b1", "e"]
+
+    def a_create(name, empty):
+        if rng.random() < 0.5:
+            files = [] if empty else ([r for r in rels if rng.random() < 0.6] or rels[:1])
+            return {"op": "create", "via": "api", "name": name, "files": files, "fresh": rng.random() < 0.5}
+        sel = rng.choice([["-t", "nosuch"], ["-e", ".xyz"], ["-f", "nosuch"]]) if empty else rng.choice(CLI_SELECT)
+        return {"op": "create", "via": "cli", "name": name, "args": sel}
+    ops = []
+    first = rng.choice(names)
+    if i % 3 != 2:
+        ops.append(a_create(first, empty=True))          # a backup with an EMPTY record ...
+    for _ in range(rng.randint(3, 7)):
+        r = rng.random()
+        if r < 0.4:
+            nm = first if rng.random() < 0.7 else rng.choice(names)
+            ops.append(a_create(nm, empty=rng.random() < 0.15))   # ... and the same name again, non-empty
+        elif r < 0.55:
+            ops.append({"op": "reopen"})
+        elif r < 0.75:
+            ops.append({"op": "restore", "name": rng.choice(names), "tasks": rng.choice([[], [], ["go"], ["nosuch", "go"]]),
+                        "via": rng.choice(["api", "cli"]), "fresh": rng.random() < 0.5})
+        else:
+            ops.append({"op": "modify", "path": rng.choice(rels), "bytes": gen_tsv(rng, True).decode("latin-1")})
+    return {"kind": "bhist", "tree": tree, "ops": ops[:8]}
+
+
+def bhist_files(root, o):
+    """the selection run_remodel_backup.main makes (re-stated from its argument handling)"""
+    from hed.tools.util import io_util
+    if o["via"] == "api":
+        return o["files"]
+    a = o["args"]
+
+    def opt(flag, default):
+        if flag not in a:
+            return default
+        i = a.index(flag) + 1
+        j = i
+        while j < len(a) and not a[j].startswith("-"):
+            j += 1
+        return a[i:j]
+    suffix, ext, tasks = opt("-f", ["events"]), opt("-e", [".tsv"]), opt("-t", [])
+    fl = io_util.get_file_list(root, name_suffix=suffix, extensions=ext, exclude_dirs=["derivatives", "remodeling"])
+    if tasks:
+        fl = io_util.get_filtered_by_element(fl, tasks)
+    return [os.path.relpath(p, root).split("/") for p in fl]
+
+
+def bhist_cases(ctx, env, specs):
+    for lo in range(0, len(specs), 60):
+        chunk = specs[lo:lo + 60]
+        runs = [bhist_run(ctx, env, sp, lo + i) for i, sp in enumerate(chunk)]
+        answers = mbatch(ctx, [r["req"] for r in runs])
+        for r, ans in zip(runs, answers):
+            bhist_compare(ctx, r, ans)
+        ctx.check_time()
+
+
+def bhist_run(ctx, env, spec, slot):
+    """run the session on the real code (oracle applied on the way), collect what the model is asked"""
+    from hed.tools.remodeling.cli import run_remodel_backup, run_remodel_restore
+    tmp = os.path.join(env.tmp, f"b{slot}")
+    shutil.rmtree(tmp, ignore_errors=True)
+    os.makedirs(tmp)
+    root = os.path.join(tmp, "ds")
+    build(root, spec["tree"])
+    bm = env.BM(root)
+    backups = bm.backups_path
+    tree0 = model_tree([root])
+    case = dict(spec)
+    known, mops, obs = {}, [], []
+    for i, o in enumerate(spec["ops"]):
+        err, ret, mo = None, None, None
+        existed = o.get("name") in known
+        src = snap(root)
+        try:
+            if o["op"] == "reopen":
+                mo = {"op": "reopen"}
+                bm = env.BM(root)
+            elif o["op"] == "modify":
+                mo = {"op": "modify", "path": comps(root) + o["path"], "bytes": b2l(o["bytes"].encode("latin-1"))}
+                with open(os.path.join(root, *o["path"]), "wb") as f:
+                    f.write(o["bytes"].encode("latin-1"))
+            elif o["op"] == "create":
+                files = bhist_files(root, o)
+                mo = {"op": "create", "name": o["name"], "files": files, "cli": o["via"] == "cli", "fresh": o.get("fresh", False)}
+                if o["via"] == "cli":
+                    run_remodel_backup.main([root, "-bn", o["name"]] + o["args"])
+                else:
+                    mgr = env.BM(root) if o["fresh"] else bm
+                    ret = mgr.create_backup([os.path.join(root, *f) for f in files], o["name"])
+                if o["via"] == "cli" or o.get("fresh"):
+                    bm = env.BM(root)      # the session's manager is re-opened after a creation by another manager
+            else:
+                mo = {"op": "restore", "name": o["name"], "tasks": o["tasks"], "cli": o["via"] == "cli", "fresh": o.get("fresh", False)}
+                if o["via"] == "cli":
+                    run_remodel_restore.main([root, "-bn", o["name"]] + (["-t"] + o["tasks"] if o["tasks"] else []))
+                else:
+                    (env.BM(root) if o["fresh"] else bm).restore_backup(o["name"], o["tasks"], verbose=False)
+        except env.HedFileError as e:
+            err = e.code
+        except Exception as e:
+            err = type(e).__name__
+        mops.append(mo)
+        now = snap(root)
+        obs.append({"ret": ret, "err": err, "files": now, "view": env.manager_view(root, None)})
+        ctx.count("bhist:" + o["op"] + (":" + o["via"] if "via" in o else ""))
+        # ---- the oracle, from first principles: a name that exists is never overwritten
+        for nm, was in known.items():
+            cur = {k[4:]: v for k, v in now.items() if k[:4] == ("derivatives", "remodel", "backups", nm)}
+            if cur != was:
+                ctx.violation("existing-backup-overwritten", {**case, "at": i},
+                              {"name": nm, "record_was_empty": was.get((LOCK,)) == b"{}", "op": o,
+                               "changed": sorted("/".join(k) for k in set(cur) | set(was) if cur.get(k) != was.get(k))[:5]})
+                known[nm] = cur
+        if o["op"] == "create":
+            if existed:
+                ctx.count("bhist:create-existing-name" + ("-empty-record" if known[o["name"]].get((LOCK,)) == b"{}" else ""))
+                if o["via"] == "api" and ret is not False:
+                    ctx.violation("create-on-existing-name-did-not-return-False", {**case, "at": i}, {"returned": ret, "op": o})
+            elif err is None:
+                cur = {k[4:]: v for k, v in now.items() if k[:4] == ("derivatives", "remodel", "backups", o["name"])}
+                known[o["name"]] = cur
+                if o["via"] == "api" and ret is not True:
+                    ctx.violation("create-backup-refused-on-fresh-name", {**case, "at": i}, {"returned": ret})
+                for f in mo["files"]:
+                    if cur.get(("backup_root",) + tuple(f)) != src.get(tuple(f)):
+                        ctx.violation("backup-copy-differs-from-source", {**case, "at": i}, {"file": "/".join(f)})
+        v = obs[-1]["view"]
+        if v[0] != "ok" or sorted(n for n, _ in v[1]) != sorted(known):
+            ctx.violation("existing-backup-not-listed", {**case, "at": i}, {"view": v, "known": sorted(known)})
+    ctx.case(("bhist", json.dumps(spec, sort_keys=True)), nontrivial=any(c.startswith("bhist:create-existing") for c in ctx.hist))
+    req = {"op": "c18.bhist", "dataRoot": comps(root), "backups": comps(backups), "name": "x", "stamp": STAMP,
+           "tree": tree0, "ops": mops}
+    shutil.rmtree(tmp, ignore_errors=True)
+    return {"spec": spec, "req": req, "obs": obs, "root_c": comps(root)}
+
+
+def bhist_compare(ctx, r, ans):
+    case = dict(r["spec"])
+    if "bad-op" in ans:
+        ctx.disagree("bhist request", case, ans, None)
+        return
+    for i, (m, ob) in enumerate(zip(ans["trace"], r["obs"])):
+        o = r["spec"]["ops"][i]
+        mine = {"err": m["err"], "files": show(model_files(m["files"], r["root_c"])), "scan": scan_view(m["scan"])}
+        real = {"err": ob["err"], "files": show(impl_files(ob["files"])), "scan": ob["view"]}
+        if o["op"] == "create" and o["via"] == "api":
+            mine["ret"], real["ret"] = m["ret"], ob["ret"]
+        if mine != real:
+            ctx.disagree("Backup.bstep/createCli/restoreCli session = real managers and CLI", {**case, "at": i},
+                         {k: v for k, v in mine.items() if v != real.get(k)}, {k: v for k, v in real.items() if v != mine.get(k)})
+            break
+
+
 # ------------------------------------------------------------------------------------------ run
 
 def key_cases(ctx, env, n, items=None):
@@ -1025,7 +1195,8 @@ def gen_crash(rng, i):
     name = rng.choice(["default_back", "b1", "my backup", "x}y", 'q"n'])
     pre = []
     if rng.random() < 0.35:
-        pre.append({"name": rng.choice(["old", "default_back", "b1"]), "files": [r for r in rels if rng.random() < 0.6] or rels[:1]})
+        pre.append({"name": rng.choice(["old", "default_back", "b1", name, name]),
+                    "files": [] if rng.random() < 0.35 else ([r for r in rels if rng.random() < 0.6] or rels[:1])})
     return {"kind": "crash", "tree": tree, "files": files, "name": name, "pre": pre, "ext": rng.random() < 0.2}
 
 
@@ -1035,6 +1206,8 @@ CORPUS = [
     {"kind": "crash", "tree": [[["a"], ""]], "files": [["a"]], "name": "b", "pre": [], "ext": False},
     {"kind": "crash", "tree": [[["a"], "12345"]], "files": [["a"]], "name": "b", "pre": [{"name": "b", "files": [["a"]]}], "ext": False},
     {"kind": "crash", "tree": [[["a"], "12345"]], "files": [], "name": "b", "pre": [], "ext": True},
+    {"kind": "crash", "tree": [[["a"], "12345"], [["c_events.tsv"], "x\n1\n"]], "files": [["a"], ["c_events.tsv"]], "name": "b",
+     "pre": [{"name": "b", "files": []}], "ext": False},
 ]
 
 
@@ -1050,11 +1223,29 @@ def run(ctx):
         specs = CORPUS + [gen_crash(ctx.rng, i) for i in range(n_crash)]
         ctx.samples.extend({"crash": sp["files"], "name": sp["name"]} for sp in specs[4:7])
         crash_cases(ctx, env, specs)
+        specs = [gen_bhist(ctx.rng, i) for i in range(80 if ctx.quick() else 1500)]
+        ctx.samples.append({"bhist": [(o["op"], o.get("name"), o.get("via")) for o in specs[0]["ops"]]})
+        bhist_cases(ctx, env, specs)
         specs = [gen_opcrash(ctx.rng, i) for i in range(14 if ctx.quick() else 150)]
         opcrash_cases(ctx, env, specs)
         specs = [gen_history(ctx.rng, i) for i in range(n_hist)]
         ctx.samples.extend({"history": [o["op"] for o in sp["ops"]]} for sp in specs[:3])
         history_cases(ctx, env, specs)
+        # probe (observation only): a manager constructed BEFORE another manager made backup n does not see it
+        proot = os.path.join(env.tmp, "probe")
+        build(proot, [[["a_events.tsv"], "x\n1\n"]])
+        stale = env.BM(proot)
+        env.BM(proot).create_backup([os.path.join(proot, "a_events.tsv")], "n")
+        open(os.path.join(proot, "a_events.tsv"), "w").write("CHANGED\n")
+        before = snap(os.path.join(proot, "derivatives"))
+        r = stale.create_backup([os.path.join(proot, "a_events.tsv")], "n")
+        over = snap(os.path.join(proot, "derivatives")) != before
+        ctx.count("probe:stale-manager-" + ("overwrites" if over else "refuses"))
+        ctx.notes.append(f"observation: create_backup through a manager constructed before another manager created the same "
+                         f"name returns {r} and {'OVERWRITES' if over else 'does not touch'} the existing backup (guard is the "
+                         f"in-memory dictionary; outside the property's single-session quantifier; fixes/C18_create_checks_backup_dir_on_disk.diff)")
+    ctx.notes.append("observation: run_remodel_backup on a name whose record is empty passes the CLI's own truthiness test and is "
+                     "then refused silently by create_backup's guard (returns False, no error, no backup made)")
     ctx.notes.append("observation: a crash before the record is complete leaves a directory that makes every later "
                      "BackupManager(data_root) raise (BadBackupFormat / JSONDecodeError): 'does not list' holds, the "
                      "dataset needs manual cleanup")
@@ -1073,6 +1264,8 @@ def replay(ctx, rec):
     with Env() as env:
         if "kind" not in spec:
             key_cases(ctx, env, 0, [(spec["path"], spec["tasks"])])
+        elif spec["kind"] == "bhist":
+            bhist_cases(ctx, env, [spec])
         elif spec["kind"] == "opcrash":
             opcrash_cases(ctx, env, [spec], only_k=case.get("k"))
         elif spec["kind"] == "crash":
